@@ -87,3 +87,41 @@ pub fn factor_transpose_usize(d: usize, height: usize, input: &[usize], output: 
         _ => panic!("bad unroll factor"),
     }
 }
+
+/// the crate-private AVX algorithms over an arbitrary inner FFT: `kind` = "mr2" … "mr16", "bluesteins" (with `len`), "raders"
+#[cfg(all(target_arch = "x86_64", feature = "avx"))]
+macro_rules! verif_avx_algo {
+    ($name:ident, $t:ty) => {
+        pub fn $name(
+            kind: &str,
+            len: usize,
+            inner: std::sync::Arc<dyn crate::Fft<$t>>,
+        ) -> Option<std::sync::Arc<dyn crate::Fft<$t>>> {
+            use crate::avx::*;
+            use std::sync::Arc;
+            fn w<F: crate::Fft<$t> + 'static>(r: Result<F, ()>) -> Option<Arc<dyn crate::Fft<$t>>> {
+                r.ok().map(|f| Arc::new(f) as Arc<dyn crate::Fft<$t>>)
+            }
+            match kind {
+                "mr2" => w(MixedRadix2xnAvx::<$t, $t>::new(inner)),
+                "mr3" => w(MixedRadix3xnAvx::<$t, $t>::new(inner)),
+                "mr4" => w(MixedRadix4xnAvx::<$t, $t>::new(inner)),
+                "mr5" => w(MixedRadix5xnAvx::<$t, $t>::new(inner)),
+                "mr6" => w(MixedRadix6xnAvx::<$t, $t>::new(inner)),
+                "mr7" => w(MixedRadix7xnAvx::<$t, $t>::new(inner)),
+                "mr8" => w(MixedRadix8xnAvx::<$t, $t>::new(inner)),
+                "mr9" => w(MixedRadix9xnAvx::<$t, $t>::new(inner)),
+                "mr11" => w(MixedRadix11xnAvx::<$t, $t>::new(inner)),
+                "mr12" => w(MixedRadix12xnAvx::<$t, $t>::new(inner)),
+                "mr16" => w(MixedRadix16xnAvx::<$t, $t>::new(inner)),
+                "bluesteins" => w(BluesteinsAvx::<$t, $t>::new(len, inner)),
+                "raders" => w(RadersAvx2::<$t, $t>::new(inner)),
+                _ => None,
+            }
+        }
+    };
+}
+#[cfg(all(target_arch = "x86_64", feature = "avx"))]
+verif_avx_algo!(avx_algo_f32, f32);
+#[cfg(all(target_arch = "x86_64", feature = "avx"))]
+verif_avx_algo!(avx_algo_f64, f64);
